@@ -45,6 +45,7 @@ pub struct Ctx {
 
 pub const ROTATIONS: [i64; 4] = [1, 2, 5, -3];
 
+// contexts 0/1: the backend family's own parameter sets; 2/3: the FFT64 parameter sets on any backend (cross-backend comparison)
 static CTXS: [OnceLock<Ctx>; 4] = [OnceLock::new(), OnceLock::new(), OnceLock::new(), OnceLock::new()];
 
 fn glwe_layout(p: &Params) -> GLWELayout {
@@ -53,7 +54,7 @@ fn glwe_layout(p: &Params) -> GLWELayout {
 
 pub fn ctx(pi: usize) -> &'static Ctx {
     CTXS[pi].get_or_init(|| {
-        let p = params_for(B_IS_FFT, pi);
+        let p = params_for(B_IS_FFT || pi >= 2, pi % 2);
         let module = Module::<B>::new(p.n as u64);
         let key_k = p.k + p.dsize * p.base2k;
         let dnum = key_k.div_ceil(p.dsize * p.base2k);
@@ -167,11 +168,13 @@ pub struct Sx {
     pub guard_damaged: bool,
     pub windows: usize,
     pub nonzero_windows: usize,
+    /// run with the FFT64 parameter sets whatever the backend (C10)
+    pub fft_params: bool,
 }
 
 impl Sx {
     pub fn new(exact: bool, fill: u64, roomy_bytes: usize) -> Sx {
-        Sx { exact, fill, roomy: pzv_be::dirty_scratch::<B>(roomy_bytes), buf: vec![], off: 0, len: 0, guard_damaged: false, windows: 0, nonzero_windows: 0 }
+        Sx { exact, fill, roomy: pzv_be::dirty_scratch::<B>(roomy_bytes), buf: vec![], off: 0, len: 0, guard_damaged: false, windows: 0, nonzero_windows: 0, fft_params: false }
     }
     fn check_guards(&mut self) {
         if self.buf.is_empty() {
@@ -239,7 +242,7 @@ pub fn run_program_sx(c: &Case, sx: &mut Sx) -> (Verdict, Vec<Option<(usize, usi
 }
 
 fn run_program_inner(c: &Case, sx: &mut Sx, dump: &mut Vec<Option<(usize, usize, Vec<i64>)>>) -> Verdict {
-    let cx = ctx(c.pset as usize % 2);
+    let cx = ctx(c.pset as usize % 2 + if sx.fft_params { 2 } else { 0 });
     let p = cx.p;
     let (n, b) = (p.n, p.base2k);
     let m = n / 2;
@@ -890,4 +893,12 @@ pub fn run_c12(c: &Case) -> Verdict {
         cl.push("exact_windows>=2");
     }
     Verdict::pass(nonzero >= 1, &cl)
+}
+
+/// C10 (CKKS layer): the program with the FFT64 parameter set of the case on this backend; returns the C16 verdict and the final registers.
+pub fn run_fft_params(c: &Case) -> (Verdict, Vec<Option<(usize, usize, Vec<i64>)>>) {
+    let cx = ctx(c.pset as usize % 2 + 2);
+    let mut sx = Sx::new(false, 0, cx.scratch_bytes);
+    sx.fft_params = true;
+    run_program_sx(c, &mut sx)
 }
